@@ -57,18 +57,31 @@ def proj_cl_u(p):
 # oracle side
 
 def shifted(lon_u, cl_u):
+    if cl_u == 0:
+        return list(lon_u)          # no shift: a node stored at +180 stays at +180
     return [((x - cl_u + H) % (2 * H)) - H for x in lon_u]
 
 
-def frame_ok(mc, cl_u):
-    """the case is decided with a margin: no shifted longitude near the seam, no edge span near 180"""
+def exact32(x):
+    """micro-degree value that float32 holds exactly (multiple of 1/8 degree, |x| <= 256 degrees)"""
+    return x % 125000 == 0
+
+
+def frame_ok(mc, cl_u, allow_exact=None):
+    """the case is decided with a margin — or exactly: no shifted longitude near the seam and no edge span
+    near 180, unless the longitudes involved are exact in float32 (then spans of exactly 180 degrees and
+    nodes exactly on the seam are decided exactly; unshifted frame only)"""
     lu = shifted(mc["lon_u"], cl_u)
-    if any(abs(abs(x) - H) < MARGIN for x in lu):
-        return False
+    if allow_exact is None:
+        allow_exact = bool(mc.get("exact"))       # only the meshes built for it (no 'split' is asked of them)
+    for x in lu:
+        if abs(abs(x) - H) < MARGIN and not (allow_exact and cl_u == 0 and abs(x) == H):
+            return False
     for f in mc["faces"]:
         for j in range(len(f)):
-            d = abs(lu[f[j]] - lu[f[(j + 1) % len(f)]])
-            if abs(d - H) < MARGIN:
+            a, b = lu[f[j]], lu[f[(j + 1) % len(f)]]
+            d = abs(a - b)
+            if abs(d - H) < MARGIN and not (allow_exact and cl_u == 0 and d == H and exact32(a) and exact32(b)):
                 return False
     return True
 
@@ -579,53 +592,86 @@ def same_call(a, b):
     return all(a.get(k) == b.get(k) for k in ("export", "level", "var", "periodic", "engine", "proj"))
 
 
+SIDE_TABLES = {"gdf": ("_gdf_cached_parameters", ["antimeridian_face_indices"]),
+               "poly": ("_poly_collection_cached_parameters", ["antimeridian_face_indices", "non_nan_polygon_indices"])}
+
+
+def side_tables(g, export):
+    if export not in SIDE_TABLES:
+        return None
+    attr, keys = SIDE_TABLES[export]
+    d = getattr(g, attr)
+    return tuple(None if d.get(k) is None else tuple(int(x) for x in np.asarray(d[k]).ravel()) for k in keys)
+
+
+def compare_results(a, aidx, b, bidx, export):
+    """a, b canonical results (None = the call raised)"""
+    if (a is None) != (b is None):
+        return "raises"
+    if a is None:
+        return None
+    if a["geom"] != b["geom"] or a["rows"] != b["rows"]:
+        return "geometry"
+    if a["cols"] != b["cols"]:
+        return "columns"
+    if a["data"] != b["data"]:
+        return "data"
+    if export == "poly" and ((aidx is None) != (bidx is None) or (aidx is not None and list(aidx) != list(bidx))):
+        return "index_table"
+    return None
+
+
 def run_hist(ck, c):
+    """every step of the history is compared with the same call on a fresh grid; objects returned earlier
+    must keep their content"""
     mc = c["mesh"]
     steps = c["steps"]
     g = build_grid(mc)
     das = {}
-    kept = []          # (step index, object, canonical content right after the return)
-    res = {"raises": None, "ids": [], "diff": None}
-    final = steps[-1]
-    out_final = None
+    kept = []          # (step index, object, canonical content right after the return, step)
+    res = {"raises": None, "ids": [], "diff": None, "diffs": [], "stale": [], "pollution": []}
     raised = set()
+    fresh_memo = {}
+    first_bad = None
     for i, st in enumerate(steps):
         try:
             obj, idx = convert(g, st, das)
+            cr = canon_result(obj)
+            idx = None if idx is None else [int(x) for x in idx]
         except Exception as ex:
-            obj, idx = None, None
+            obj, idx, cr = None, None, None
             raised.add(i)
             if i == len(steps) - 1:
                 res["raises"] = type(ex).__name__ + ": " + str(ex)[:100]
         if obj is not None:
-            kept.append((i, obj, canon_result(obj), st))
-        if i == len(steps) - 1:
-            out_final = (obj, idx)
-    # ---- the same final call on a fresh grid
-    g2 = build_grid(mc)
-    try:
-        fobj, fidx = convert(g2, final)
-        fres = None
-    except Exception as ex:
-        fobj, fidx = None, None
-        fres = type(ex).__name__ + ": " + str(ex)[:100]
-    info = {"export": final["export"], "level": final["level"], "periodic": final["periodic"],
-            "projection": final["proj"] is not None}
-    diff = None
-    if (res["raises"] is None) != (fres is None):
-        diff = "raises"
-    elif out_final[0] is not None:
-        a, b = kept[-1][2], canon_result(fobj)
-        if a["geom"] != b["geom"] or a["rows"] != b["rows"]:
-            diff = "geometry"
-        elif a["cols"] != b["cols"]:
-            diff = "columns"
-        elif a["data"] != b["data"]:
-            diff = "data"
-        if diff is None and final["export"] == "poly":
-            if (out_final[1] is None) != (fidx is None) or (fidx is not None and [int(x) for x in out_final[1]] != [int(x) for x in fidx]):
-                diff = "index_table"
-    res["diff"] = diff
+            kept.append((i, obj, cr, st))
+        tabs = side_tables(g, st["export"])
+        key = json.dumps([st.get(k) for k in ("export", "level", "var", "periodic", "engine", "proj")])
+        if key not in fresh_memo:
+            g2 = build_grid(mc)
+            try:
+                fobj, fidx = convert(g2, st)
+                fresh_memo[key] = (canon_result(fobj), None if fidx is None else [int(x) for x in fidx], side_tables(g2, st["export"]))
+            except Exception:
+                fresh_memo[key] = (None, None, side_tables(g2, st["export"]))
+        fcr, fidx, ftabs = fresh_memo[key]
+        d = compare_results(cr, idx, fcr, fidx, st["export"])
+        stale = st["level"] == "da" and tabs is not None and tabs != ftabs
+        own = ("v%d" % st.get("var", 0),) if st["level"] == "da" else ()
+        poll = cr is not None and st["export"] == "gdf" and tuple(cr["cols"]) != own
+        res["diffs"].append(d)
+        res["stale"].append(bool(stale))
+        res["pollution"].append(bool(poll))
+        if d is not None and first_bad is None:
+            first_bad = i
+    res["diff"] = res["diffs"][-1]
+    if first_bad is not None:
+        st = steps[first_bad]
+        ck.fail("cache_dependent", c,
+                {"export": st["export"], "level": st["level"], "periodic": st["periodic"], "projection": st["proj"] is not None,
+                 "differs": res["diffs"][first_bad], "stale_side_tables": res["stale"][first_bad],
+                 "column_pollution": res["pollution"][first_bad]},
+                detail="step %d of the history differs from the same call on a fresh grid (%s)" % (first_bad, res["diffs"][first_bad]))
     # ---- earlier returned objects must still be what they were
     altered = []
     for i, obj, snap, st in kept[:-1]:
@@ -633,11 +679,16 @@ def run_hist(ck, c):
         if now != snap:
             altered.append((i, st["export"], "columns" if (now["geom"] == snap["geom"] and now["data"] != snap["data"] or now["cols"] != snap["cols"]) else "geometry"))
     res["altered"] = altered
+    for i, exp, what in altered:
+        ck.fail("returned_object_altered", c, {"export": exp, "what": what},
+                detail="the object returned by step %d was altered by later conversions" % i)
+        break
     res["ids"] = [(i, id(obj)) for i, obj, _, _ in kept]
     res["cols"] = {i: list(canon_result(obj)["cols"]) for i, obj, _, st in kept if st["export"] == "gdf"}
+    res["raised"] = sorted(raised)
     # ---- model: the machine of the final call's export kind, on the steps of that kind
-    kind = final["export"]
-    sel = [i for i, st in enumerate(steps) if st["export"] == kind and (kind != "line" or True)]
+    kind = steps[-1]["export"]
+    sel = [i for i, st in enumerate(steps) if st["export"] == kind]
     lines = []
     for i in sel:
         st = steps[i]
@@ -651,56 +702,43 @@ def run_hist(ck, c):
         lines.append([var, PER[st["periodic"]] + 1, proj_token(st["proj"]), eng, cache,
                       1 if st.get("override", False) else 0])
     res["sel"] = sel
-    c["_info"] = info
     return res, ("hist", sx([METH[kind], lines]))
 
 
 def cmp_hist(ck, c, res, mo):
+    """correspondence only (the clauses were evaluated in run_hist)"""
     steps = c["steps"]
-    info = c.get("_info") or {}
     outs, reg, keys_ok = mo
     sel = res["sel"]
-    final_out = outs[-1]
-    built, fid, tables = final_out
-    stale = tables is not None and any(list(t) != list(built) for t in tables)
-    # earlier conversions wrote columns into the object that is returned now
-    pollution = False
-    if steps[-1]["export"] == "gdf":
-        cols_model = [r for r in reg if r[0] == fid]
-        own = [5 + steps[-1].get("var", 0)] if steps[-1]["level"] == "da" else []
-        if cols_model and sorted(set(cols_model[-1][2])) != sorted(own):
-            pollution = True
-    # ---- property clauses (the model only explains which known mechanism is at work)
-    if res["diff"] is not None:
-        ck.fail("cache_dependent", c, dict(info, differs=res["diff"], stale_side_tables=bool(stale),
-                                           column_pollution=bool(pollution)),
-                detail="the final conversion differs from the same call on a fresh grid (%s)" % res["diff"])
-    for i, exp, what in res["altered"]:
-        ck.fail("returned_object_altered", c, {"export": exp, "what": what},
-                detail="the object returned by step %d was altered by later conversions" % i)
-        break
-    # ---- correspondence
-    frame_resized = stale and steps[-1]["export"] == "gdf" and steps[-1]["level"] == "da"
-    # (assigning a column of another length to an empty cached frame makes pandas add rows)
-    if ((res["diff"] in ("geometry", "index_table") and not frame_resized) or (res["diff"] == "raises" and not stale)) and keys_ok:
-        ck.corr_failures.append({"case": c, "what": "geometry depends on the history although the model's machine is transparent",
-                                 "impl": res["diff"]})
-    if res["diff"] == "data" and not stale:
-        ck.corr_failures.append({"case": c, "what": "data differ although the model reads consistent side tables"})
-    if res["diff"] == "columns" and not pollution:
-        ck.corr_failures.append({"case": c, "what": "columns differ although the model predicts none written"})
+    clean = not [i for i in res["raised"] if i != len(steps) - 1 or True]
+    for j, i in enumerate(sel):
+        built, oid, tables = outs[j]
+        m_stale = tables is not None and any(list(t) != list(built) for t in tables)
+        d = res["diffs"][i]
+        st = steps[i]
+        frame_resized = (m_stale or res["stale"][i]) and st["export"] == "gdf" and st["level"] == "da"
+        if keys_ok and d in ("geometry", "index_table") and not frame_resized:
+            ck.corr_failures.append({"case": c, "what": "step %d: geometry depends on the history although the model's machine is transparent" % i})
+        if keys_ok and d == "raises" and not (m_stale or res["stale"][i]):
+            ck.corr_failures.append({"case": c, "what": "step %d raises only after the history although the model reads consistent tables" % i})
+        if d == "data" and not m_stale and clean:
+            ck.corr_failures.append({"case": c, "what": "step %d: data differ although the model reads consistent side tables" % i})
+        if res["stale"][i] and not m_stale and clean:
+            ck.corr_failures.append({"case": c, "what": "step %d: side tables measured stale, model says consistent" % i})
+    if not clean:
+        return
     # object identities: partition of the steps of this kind by returned object
     impl_ids = dict(res["ids"])
     got = [impl_ids.get(i) for i in sel]
-    if None not in got and res["raises"] is None:
-        def part(xs):
-            first = {}
-            return [first.setdefault(x, len(first)) for x in xs]
-        if part(got) != part([o[1] for o in outs]):
-            ck.corr_failures.append({"case": c, "what": "identity of returned objects", "impl": part(got),
-                                     "model": part([o[1] for o in outs])})
+
+    def part(xs):
+        first = {}
+        return [first.setdefault(x, len(first)) for x in xs]
+    if None not in got and part(got) != part([o[1] for o in outs]):
+        ck.corr_failures.append({"case": c, "what": "identity of returned objects", "impl": part(got),
+                                 "model": part([o[1] for o in outs])})
     # columns written into frames
-    if steps[-1]["export"] == "gdf" and res["raises"] is None:
+    if steps[-1]["export"] == "gdf":
         for j, i in enumerate(sel):
             if i in res["cols"]:
                 want = sorted(set(int(x) - 5 for x in reg[j][2])) if reg[j][2] is not None else []
@@ -729,6 +767,62 @@ def pick_mesh(rng, want_am=None):
             continue
         return mc
     return mc
+
+
+def exact_mesh(rng):
+    """caps, bands and pole fans on integer-degree longitudes: edges through a pole (span exactly 180),
+    nodes exactly at the poles and exactly on the antimeridian, next to ordinary crossing faces"""
+    import math
+    k = rng.choice([4, 8])
+    step = 360 // k
+    rot = rng.choice([0, 45, 90, -90, 180]) if k == 4 else rng.choice([0, 45, 90])
+    sign = rng.choice([1, -1])                       # northern or southern cap
+    lat1, lat2 = sign * rng.choice([80, 70, 60]), sign * rng.choice([40, 30, 10])
+
+    def wrap(d):
+        d = ((d + 180) % 360) - 180
+        return 180 if d == -180 and rng.random() < 0.7 else d      # nodes exactly on the seam, mostly as +180
+    ring = [wrap(rot + i * step) for i in range(k)]
+    nodes, idx = [], {}
+
+    def node(lon, lat):
+        key = (lon, lat)
+        if key not in idx:
+            idx[key] = len(nodes)
+            nodes.append(key)
+        return idx[key]
+    faces = []
+    style = rng.choice(["halves", "fan", "halves", "fan+band", "halves+band"])
+    if "halves" in style:
+        h = k // 2
+        faces.append([node(ring[i], lat1) for i in range(0, h + 1)])               # closing edge through the pole: span 180
+        faces.append([node(ring[i % k], lat1) for i in range(h, k + 1)])
+    if "fan" in style:
+        pole = node(rng.choice([0, 90, ring[0]]), sign * 90)
+        for i in range(k):
+            if rng.random() < 0.85:
+                faces.append([pole, node(ring[i], lat1), node(ring[(i + 1) % k], lat1)])
+        if rng.random() < 0.5:                                                      # a pole corner opposite to an arc end
+            faces.append([pole, node(ring[0], lat1), node(ring[(k // 2) % k], lat1)])
+    if "band" in style:
+        for i in range(k):
+            if rng.random() < 0.8:
+                faces.append([node(ring[i], lat1), node(ring[i], lat2), node(ring[(i + 1) % k], lat2), node(ring[(i + 1) % k], lat1)])
+    faces = [f for f in faces if len(set(f)) == len(f)]
+    for f in faces:
+        if rng.random() < 0.5:
+            f.reverse()
+        r = rng.randrange(len(f))
+        f[:] = f[r:] + f[:r]
+    rng.shuffle(faces)
+    used = sorted({i for f in faces for i in f})
+    mp = {o: n for n, o in enumerate(used)}
+    nodes = [nodes[o] for o in used]
+    faces = [[mp[i] for i in f] for f in faces]
+    xyz = [[math.cos(math.radians(la)) * math.cos(math.radians(lo)), math.cos(math.radians(la)) * math.sin(math.radians(lo)),
+            math.sin(math.radians(la))] for lo, la in nodes]
+    return {"faces": faces, "lon_u": [lo * U for lo, la in nodes], "lat_u": [la * U for lo, la in nodes], "xyz": xyz,
+            "exact": True}
 
 
 def pick_proj(rng, mc, allow_none=True, only=None):
@@ -763,6 +857,23 @@ def gen_cases(ck):
             cases.append(json.load(open(os.path.join(cdir, fn))))
     for _ in range(12 if quick else 1000):
         cases.append({"kind": "am", "mesh": pick_mesh(rng, want_am=rng.choice([True, True, None, False]))})
+    # exact configurations: spans of exactly 180 degrees, pole corners, nodes on the seam
+    for _ in range(10 if quick else 300):
+        mc = exact_mesh(rng)
+        if len(mc["faces"]) >= 1 and frame_ok(mc, 0):
+            cases.append({"kind": "am", "mesh": mc})
+    for rep in range(1 if quick else 15):
+        for export in ("gdf", "poly", "line"):
+            for level in (("grid", "da") if export != "line" else ("grid",)):
+                for per in ("exclude", "ignore"):
+                    mc = exact_mesh(rng)
+                    if not mc["faces"] or not frame_ok(mc, 0):
+                        continue
+                    p = rng.choice([None, None, ["Robinson", 0], ["Mollweide", 0]])
+                    cases.append({"kind": "single", "mesh": mc,
+                                  "call": {"export": export, "level": level, "var": rng.randrange(3), "periodic": per,
+                                           "engine": rng.choice(["spatialpandas", "geopandas"]) if export == "gdf" else None,
+                                           "proj": p, "cache": True, "override": False}})
     # every (export, level, periodic, engine, projection class) at least once per tier
     combos = []
     for export in ("gdf", "poly", "line"):
@@ -810,6 +921,26 @@ def gen_cases(ck):
             cases.append({"kind": "hist", "mesh": mc, "steps": [call(export, "grid", "split", None),
                                                                 call(export, "da", "split", None, var=2),
                                                                 call(export, "grid", "split", None)]})
+        # cached X, then Y with cache=False (optionally override=True), then Y again with the default flags
+        # (and X again): for every single-argument difference between X and Y, at both levels
+        for export in ("gdf", "poly", "line"):
+            argsets = [("exclude", None, "spatialpandas"), ("ignore", None, "spatialpandas"), ("split", None, "spatialpandas")]
+            if flat_p is not None:
+                argsets.append(("exclude", flat_p, "spatialpandas"))
+            if shifted_p is not None:
+                argsets.append(("ignore", shifted_p, "spatialpandas"))
+            if export == "gdf":
+                argsets.append(("exclude", None, "geopandas"))
+            pairs = [(x, y) for x in argsets for y in argsets if x != y]
+            rng.shuffle(pairs)
+            for x, y in pairs[:(4 if quick else 12)]:
+                lv = "grid" if export == "line" else rng.choice(["grid", "da"])
+                mid_override = rng.random() < 0.3
+                tail = rng.choice([[y], [y, x], [x]])
+                st = [call(export, rng.choice(["grid", lv]), x[0], x[1], engine=x[2], var=0),
+                      call(export, rng.choice(["grid", lv]), y[0], y[1], engine=y[2], cache=False, override=mid_override, var=1)]
+                st += [call(export, lv, z[0], z[1], engine=z[2], var=2) for z in tail]
+                cases.append({"kind": "hist", "mesh": mc, "steps": st})
         for pj in (shifted_p, flat_p):
             if pj is None:
                 continue
@@ -834,8 +965,10 @@ def gen_cases(ck):
             st["override"] = rng.random() < 0.15
             steps.append(st)
         # make the final call likely to hit the cache of an earlier one
-        if rng.random() < 0.6:
+        if rng.random() < 0.7:
             same = [s for s in steps[:-1] if s["export"] == kind]
+            if same and rng.random() < 0.5:
+                same = same[-1:]          # the most recent conversion of this kind, whatever its flags
             if same:
                 base = rng.choice(same)
                 fin = dict(base)
@@ -939,10 +1072,11 @@ def main(ck):
     hist_diffs = {}
     for c, res, _ in results:
         if c["kind"] == "hist":
-            hist_diffs[str(res.get("diff"))] = hist_diffs.get(str(res.get("diff")), 0) + 1
+            for dd in res.get("diffs", []):
+                hist_diffs[str(dd)] = hist_diffs.get(str(dd), 0) + 1
     ck.extra.update({"case_kinds": kinds, "model_variant_matched": matched, "conversions_that_raise": raises,
                      "seconds_build_and_proof_check (incl. waiting for the shared build lock)": round(t_build, 1),
-                     "history_final_vs_fresh": hist_diffs,
+                     "history_steps_vs_fresh": hist_diffs,
                      "clauses_checked_on_impl": ["am_faces", "polygon_vertices", "polygon_face_bijection", "split_pieces",
                                                  "index_table", "data_attached", "cache_dependent", "returned_object_altered"],
                      "tolerance": "vertices: 8 x float32 eps x max(1,|coordinate|); longitudes integer micro-degrees, every >= 180 "
@@ -967,7 +1101,4 @@ def replay(ck, rp):
     ck.note_case("replay")
     import warnings
     warnings.filterwarnings("ignore")
-    res, mreq = RUNNERS[c["kind"]](ck, c)
-    if c["kind"] == "hist" and mreq is not None and ck.build_driver():
-        mo = ck.run_model(mreq[0], [mreq[1]])[0]
-        cmp_hist(ck, c, res, mo)
+    RUNNERS[c["kind"]](ck, c)
